@@ -428,15 +428,15 @@ func execute(d *Data) (*kernel.Violation, *stats) {
 			st.skip = "bad input"
 			return nil, st
 		}
-		inputs[i], inputFP[i] = v, kernel.Enc(v)
+		inputs[i], inputFP[i] = v, kernel.EncFull(v)
 	}
 	varFP := make([]string, len(vars))
 	for i := range vars {
-		varFP[i] = kernel.Enc(anyS(vars[i]))
+		varFP[i] = kernel.EncFull(anyS(vars[i]))
 	}
 	constFP := make([]string, len(codes))
 	for i, c := range codes {
-		constFP[i] = kernel.Enc(anyS(gojq.VerifConstants(c)))
+		constFP[i] = kernel.EncFull(anyS(gojq.VerifConstants(c)))
 	}
 	var em []emitted
 	runs := map[int]*liveRun{}
@@ -444,17 +444,17 @@ func execute(d *Data) (*kernel.Violation, *stats) {
 
 	invariants := func(when string) *kernel.Violation {
 		for i, v := range inputs {
-			if fp := kernel.Enc(v); fp != inputFP[i] {
+			if fp := kernel.EncFull(v); fp != inputFP[i] {
 				return viol(d, "input-modified", "%s: input %d changed\nbefore: %s\nafter:  %s", when, i, kernel.Short(inputFP[i]), kernel.Short(fp))
 			}
 		}
 		for i := range vars {
-			if fp := kernel.Enc(anyS(vars[i])); fp != varFP[i] {
+			if fp := kernel.EncFull(anyS(vars[i])); fp != varFP[i] {
 				return viol(d, "variable-modified", "%s: variable values of program %d changed\nbefore: %s\nafter:  %s", when, i, kernel.Short(varFP[i]), kernel.Short(fp))
 			}
 		}
 		for i, c := range codes {
-			if fp := kernel.Enc(anyS(gojq.VerifConstants(c))); fp != constFP[i] {
+			if fp := kernel.EncFull(anyS(gojq.VerifConstants(c))); fp != constFP[i] {
 				return viol(d, "constant-modified", "%s: a constant embedded in the code of program %d changed\nbefore: %s\nafter:  %s", when, i, kernel.Short(constFP[i]), kernel.Short(fp))
 			}
 		}
